@@ -60,6 +60,11 @@ class Check:
         os.makedirs(os.path.join(WORK, pid), exist_ok=True)
         os.makedirs(REPLAYS, exist_ok=True)
         os.makedirs(EVIDENCE, exist_ok=True)
+        # replays of earlier runs of this property are stale by definition
+        if os.path.isdir(REPLAYS):
+            for fn in os.listdir(REPLAYS):
+                if fn.startswith(pid + "-"):
+                    os.remove(os.path.join(REPLAYS, fn))
         self.findings = [f for f in load_known_findings() if f["property"] == pid]
 
     # -------------------------------------------------------------------------- building
